@@ -252,6 +252,42 @@ pub(super) fn apply_response_header_edits<T: AsBuffer>(
     }
 }
 
+/// HTTP/1.1 carries trailers only with the chunked transfer-coding (RFC 9112
+/// §7.1.2). A message framed by `Content-Length` that picked up a trailer
+/// section on an HTTP/2 leg must end, on an HTTP/1.1 wire, with its last body
+/// octet: kawa's H1 converter writes every `Block::Header` it meets, so the
+/// trailer lines would follow the body and be read by the peer as the start of
+/// the next message. Drop the trailer fields and turn their closing flags into
+/// a plain end of body. Called right before the H1 converter runs.
+pub(super) fn drop_trailers_of_length_framed_message<T: AsBuffer>(kawa: &mut kawa::Kawa<T>) {
+    if !matches!(kawa.body_size, kawa::BodySize::Length(_)) {
+        return;
+    }
+    // The status line is the first block of a message and the H1 converter
+    // never stops part-way: once it is gone, so is the whole header section.
+    let mut past_head = !kawa
+        .blocks
+        .iter()
+        .any(|block| matches!(block, kawa::Block::StatusLine));
+    kawa.blocks.retain_mut(|block| match block {
+        // a further message in the same buffer (final response after a 1xx)
+        kawa::Block::StatusLine => {
+            past_head = false;
+            true
+        }
+        kawa::Block::Flags(flags) if flags.end_header => {
+            if past_head {
+                flags.end_header = false;
+                flags.end_body = true;
+            }
+            past_head = true;
+            true
+        }
+        kawa::Block::Header(_) => !past_head,
+        _ => true,
+    });
+}
+
 /// Locate the `Block::Flags { end_header: true }` block in `kawa.blocks`.
 ///
 /// Both the request-side rewrite helper (`mux::router`) and the
